@@ -6,6 +6,10 @@ props = [json.loads(l) for l in open(os.path.join(HERE, "properties.jsonl"))]
 ids = [p["id"] for p in props]
 
 CLAIMED = {
+ "C16": dict(level="exploration", design="DESIGN.md §3 C16, §10",
+   text="Annotations.tla builds comment lines from token tables (names, values, JSON5 objects paired with their value, descriptions, free-text forms) and states the expected parse and the block rules as operators; TLC enumerates every single line and every block up to the bound, checks the design-level statements, and each block is parsed by the real AnnotationHolder through go/parser and gast.MapDocListToCommentBlock. A finite token grammar rather than all strings, hence exploration.",
+   note="Trusted: the JSON5-text/value pairing table in the spec, the fixed unicode sample, TLC. Lines with empty value, characters outside the documented value alphabet or unbalanced braces count as 'not of the form'.",
+   technique="TLA+ generator/oracle (Annotations.tla) enumerated by TLC; cases replayed into annotations.NewAnnotationHolder"),
  "C15": dict(level="model_checking", design="DESIGN.md §3 C15, §10",
    text="PathTrie.tla states Overlap/Flagged declaratively and transcribes the trie walk of paths.go operationally; TLC checks soundness, per-entry completeness and order-freedom of the operational model for every list within the bounds (and shows the text-keyed variant violates them). Every list up to the bound, all permutations and duplicates included, plus seeded random lists are replayed on the real paths.FindConflicts; seeded longer lists recorded from the real code are classified by TLC.",
    note="Entries are identified through distinct Meta.Receiver values; finite segment alphabet (literals a,b,c; parameters x,y,id; four spellings). Trusted: TLC, the projection in harness/cmd/vcheck/trie.go.",
